@@ -8,7 +8,7 @@ What the rewritten record decodes to is what the original record decodes to, wit
 plan's glyph map: the outline of a kept glyph is preserved by construction, not only on the sampled fonts.
 (Proofs: Lemmas/SubsetOutline.lean … SubsetOutline7.lean.)
 -/
-import FontVerif.Lemmas.SubsetOutline11
+import FontVerif.Lemmas.SubsetOutline12
 set_option linter.unusedVariables false
 namespace FontVerif.C17Outline
 open FontVerif FontVerif.Subset FontVerif.SubsetOutline
@@ -51,6 +51,18 @@ theorem subset_composite_glyph_decodes_equal (flags : Nat) (gmap : Nat → Optio
       mapComps flags gmap true v.components = some v'.components := by
   obtain ⟨v, v', h1, h2, e1, e2, e3, e4, e5, _⟩ := composite_decodes_equal flags gmap d out hs h hne
   exact ⟨v, v', h1, h2, e1, e2, e3, e4, e5⟩
+
+/-- **composite_alignment_byte_never_read.**  A composite record whose component list is complete (read-fonts read every
+record: the last one it yields has no MORE_COMPONENTS — preserved by the rewrite, `component_flag_bits_kept`) decodes to
+the same bounding box and components when anything is appended to it: the alignment byte `write_glyf_loca` adds after an
+odd-length glyph in the short loca format is never read.  (For simple glyphs this is the `pad` parameter of
+`subset_simple_glyph_decodes_equal`.)  With `loca_resolves_to_glyph_bytes` (Props/C17): what the subset's loca cuts out
+for a kept glyph decodes to the renaming of what the original's record decodes to. -/
+theorem composite_alignment_byte_never_read (out pad : Bytes) (h10 : 10 ≤ out.length)
+    (hc : complete (Glyf.readComponents ((out.drop 10).length + 1) (out.drop 10))) :
+    ∃ v v', Glyf.readComposite out = some v ∧ Glyf.readComposite (out ++ pad) = some v' ∧
+      v'.xMin = v.xMin ∧ v'.yMin = v.yMin ∧ v'.xMax = v.xMax ∧ v'.yMax = v.yMax ∧ v'.components = v.components :=
+  composite_padded out pad h10 hc
 
 /-- **components_renamed_pointwise.**  What `mapComps` means, component by component: same number of components; the
 k-th component of the subset is the k-th of the original with its glyph id mapped and its flag word passed through
